@@ -6,7 +6,7 @@ package geom
 // "one coordinate type everywhere" invariants; ForceCoordinatesType changes
 // only what it says.
 
-//@ prop C16
+//@ prop C16,C10
 
 //@ pred ZOf(s, p) = s.floats[p*Dim(s.ctype)+2]
 //@ pred MOf(s, p) = s.floats[p*Dim(s.ctype)+Dim(s.ctype)-1]
